@@ -35,7 +35,8 @@
 using namespace rkcommon;
 using c16::RNode;
 
-static const std::string SIGMA = "<>/a=\"' !-?\\";
+static const std::string SIGMA = "<>/a=\"' !-?\\";                 // (i): the 12 symbols
+static const std::string SIGMA_SUB = "<>/a=\"' !-?\\\t\n\r\v\f";  // (iii): + the control whitespace bytes
 
 // ------------------------------------------------------------------------------ shared accumulators
 enum
@@ -50,10 +51,13 @@ enum
   C_NODES,
   C_MAXLEN,
   C_OPENCLASS,
+  C_AMBIG_RET,
+  C_AMBIG_THREW,
   NCNT
 };
 static const char *CNT_NAME[NCNT] = {"states", "transitions", "returned_document", "threw_runtime_error", "crashed_cases",
-    "sandboxed_cases", "documents", "nodes_compared", "max_document_bytes", "inputs_with_unclosed_value_shape"};
+    "sandboxed_cases", "documents", "nodes_compared", "max_document_bytes", "inputs_with_unclosed_value_shape",
+    "ambiguous_text_returned", "ambiguous_text_threw_runtime_error"};
 
 struct VRec
 {
@@ -72,6 +76,8 @@ struct Shm
   std::atomic<int> sandbox;  // bit c set: a shard died on an input of shape class c, run that class in a sandbox
   std::atomic<int> capped;
   std::atomic<int> vlock;
+  std::atomic<int> obs_taken[2];
+  char obs[2][400];  // first observed treatment of an ambiguous text: [0] returned, [1] threw
   std::atomic<int> restarts[MAXSHARDS];  // how often run_sharded had to restart each shard
   int nv;
   VRec v[MAXV];
@@ -485,7 +491,7 @@ static std::string compare(const RNode &want, const xml::Node &got, const std::s
     g_diff_class = "attribute values by name: " + shape + (equal && !firstval.empty() ? " (all equal)" : "");
     return got.properties.size() != want.props.size() ? "number of properties" : "property name or value";
   }
-  if (got.content != want.content) {
+  if (!want.content_ambiguous && got.content != want.content) {
     detail = path + ": content '" + got.content + "' want '" + want.content + "'";
     size_t b = got.content.find_first_not_of(" \t\r\n"), e = got.content.find_last_not_of(" \t\r\n");
     std::string trimmed = b == std::string::npos ? "" : got.content.substr(b, e - b + 1);
@@ -507,6 +513,8 @@ static std::string doc_class(const c16::Gen &g, int family, int header)
 {
   if (family == 1)
     return "nesting chain, layout " + std::to_string(g.layout);
+  if (family == 2)
+    return std::string(g.lenient ? "text with \\v or \\f at an end" : "text framed by control whitespace") + ", layout " + std::to_string(g.layout);
   return "layout " + std::to_string(g.layout) + (header ? ", header" : ", no header") +
       (g.pattern ? std::string(", comments '") + c16::BODIES[c16::PATTERNS[g.pattern].body] + "'" : std::string(", no comments"));
 }
@@ -550,12 +558,23 @@ static void tree_core(c16::Choices &c, c16::Gen &g, const std::string &cls, cons
         diff = compare(g.root.child[i], doc.child[i], "/" + g.root.child[i].name, detail, ncmp);
     cnt(C_TRANS, ncmp);
     cnt(C_NODES, ncmp / 4);
+    if (g.lenient) {
+      cnt(C_AMBIG_RET);
+      int z = 0;
+      if (G->obs_taken[0].compare_exchange_strong(z, 1))
+        snprintf(G->obs[0], sizeof G->obs[0], "%s", ("'" + c16::enc(g.doc) + "' returns " + c16::enc(node_str(doc))).c_str());
+    }
     if (!diff.empty())
       shm_violation("readXML|returned tree differs from the generating tree: " + diff + "|" + (g_diff_class.empty() ? cls : g_diff_class), replay,
           "document '" + g.doc + "': " + detail + "; got " + node_str(doc) + " want " + c16::tree_str(g.root));
   } else {
     obs = "T:" + what;
-    if (r == R_RUNTIME_ERROR)
+    if (r == R_RUNTIME_ERROR && g.lenient) {
+      cnt(C_AMBIG_THREW);
+      int z = 0;
+      if (G->obs_taken[1].compare_exchange_strong(z, 1))
+        snprintf(G->obs[1], sizeof G->obs[1], "%s", ("'" + c16::enc(g.doc) + "' throws runtime_error '" + what + "'").c_str());
+    } else if (r == R_RUNTIME_ERROR)
       shm_violation("readXML|throws on a document of the supported subset|" + cls, replay,
           "document '" + g.doc + "': got runtime_error '" + what + "' want " + c16::tree_str(g.root));
   }
@@ -574,14 +593,14 @@ struct TreeShards
   int n0;  // family 0 shards: header x layout x pattern x root name x root property set
   int total() const
   {
-    return n0 + P.NL;
+    return n0 + 2 * P.NL;
   }
   std::vector<int> prefix(int shard) const
   {
     std::vector<int> d;
-    if (shard >= n0) {
-      d.push_back(1);
-      d.push_back(shard - n0);
+    if (shard >= n0) {  // families 1 and 2: one shard per layout
+      d.push_back(1 + (shard - n0) / P.NL);
+      d.push_back((shard - n0) % P.NL);
       return d;
     }
     int x = shard;
@@ -664,13 +683,13 @@ static void mutations_shard(const std::vector<BaseDoc> &docs, size_t B2, int sha
     }
     std::string m = d;
     for (size_t p = 0; p < n && !g_stop; p++) {
-      for (size_t ci = 0; ci < SIGMA.size(); ci++) {
-        long long i = base + (long long)(n + p * SIGMA.size() + ci);
-        if (SIGMA[ci] == d[p] || i <= resume_after)
+      for (size_t ci = 0; ci < SIGMA_SUB.size(); ci++) {
+        long long i = base + (long long)(n + p * SIGMA_SUB.size() + ci);
+        if (SIGMA_SUB[ci] == d[p] || i <= resume_after)
           continue;
-        m[p] = SIGMA[ci];
+        m[p] = SIGMA_SUB[ci];
         totality_case(i, m, "bytes:" + c16::enc(m) + "@S" + std::to_string(p) + ":" + docs[j].choices,
-            "(byte " + std::to_string(p) + " of document tree:" + docs[j].choices + " replaced by '" + std::string(1, SIGMA[ci]) + "')");
+            "(byte " + std::to_string(p) + " of document tree:" + docs[j].choices + " replaced by '" + c16::enc(std::string(1, SIGMA_SUB[ci])) + "')");
       }
       m[p] = d[p];
     }
@@ -678,13 +697,13 @@ static void mutations_shard(const std::vector<BaseDoc> &docs, size_t B2, int sha
     if (n <= B2)
       for (size_t t = 1; t < n && !g_stop; t++) {
         std::string m2 = d.substr(0, t);
-        for (size_t ci = 0; ci < SIGMA.size(); ci++) {
-          long long i = base + (long long)(n + n * SIGMA.size() + (t - 1) * SIGMA.size() + ci);
-          if (SIGMA[ci] == d[t - 1] || i <= resume_after)
+        for (size_t ci = 0; ci < SIGMA_SUB.size(); ci++) {
+          long long i = base + (long long)(n + n * SIGMA_SUB.size() + (t - 1) * SIGMA_SUB.size() + ci);
+          if (SIGMA_SUB[ci] == d[t - 1] || i <= resume_after)
             continue;
-          m2[t - 1] = SIGMA[ci];
+          m2[t - 1] = SIGMA_SUB[ci];
           totality_case(i, m2, "bytes:" + c16::enc(m2) + "@TS" + std::to_string(t) + ":" + docs[j].choices,
-              "(truncation to " + std::to_string(t) + " bytes of document tree:" + docs[j].choices + " with the last byte replaced by '" + std::string(1, SIGMA[ci]) + "')");
+              "(truncation to " + std::to_string(t) + " bytes of document tree:" + docs[j].choices + " with the last byte replaced by '" + c16::enc(std::string(1, SIGMA_SUB[ci])) + "')");
         }
       }
   }
@@ -806,7 +825,7 @@ int main(int argc, char **argv)
     const size_t B2 = th ? 36 : 24;
     vr::run_sharded(nshards, [&](int shard, long long resume) { mutations_shard(docs, B2, shard, resume); });
     vr::sample("(iii) " + std::to_string(docs.size()) + " documents of the tree space with <= " + std::to_string(B) +
-        " bytes, each: every truncation + every byte replaced by every other symbol of " + SIGMA + " (+ for documents <= " + std::to_string(B2) +
+        " bytes, each: every truncation + every byte replaced by every other one of the 12 symbols and \\t \\n \\r \\v \\f (+ for documents <= " + std::to_string(B2) +
         " bytes: every truncation with its last byte replaced); e.g. base '" + (docs.empty() ? "" : docs[docs.size() / 2].bytes) + "'");
   } else {
     printf("unknown --part %s\n", part.c_str());
@@ -832,6 +851,9 @@ int main(int argc, char **argv)
     if (G->v[i].count > 1)
       vr::S().viol_counts[G->v[i].sig] += G->v[i].count - 1;
   }
+  for (int k = 0; k < 2; k++)
+    if (G->obs_taken[k].load())
+      vr::note(std::string("observation (text with \\v or \\f at an end; leading blanks are skipped with isWhite, trailing ones with isspace; only totality is judged): ") + G->obs[k]);
   if (G->sandbox.load())
     vr::note("a shard died on an input with an unclosed-quoted-value shape; from then on the inputs of that shape class ran in a per-case forked sandbox (" +
         std::to_string(G->cnt[C_SANDBOXED].load()) + " cases)");
